@@ -486,14 +486,14 @@ pub fn run(args: &Args) -> i32 {
     )
     .assume("injectivity is demanded among keys of one kind (one partition holds one kind of key); cross-kind coincidences are only counted")
     .assume("inverse functions are only applied to db keys produced by the mapper")
-    .floor("evaluations", args.tier.pick(40_000_000, 800_000_000))
+    .floor("evaluations", args.tier.pick(6666666, 133333333))
     .floor("roundtrips:field", 256)
-    .floor("roundtrips:map", args.tier.pick(8_000_000, 150_000_000))
-    .floor("roundtrips:sorted", args.tier.pick(12_000_000, 250_000_000))
-    .floor("roundtrips:node", args.tier.pick(4_000_000, 80_000_000))
-    .floor("order_pairs_differing_in_high_byte", args.tier.pick(2_000_000, 40_000_000))
-    .floor("order_pair_checks", args.tier.pick(3_000_000, 60_000_000))
-    .floor("adjacent_db_compares", args.tier.pick(30_000_000, 600_000_000))
+    .floor("roundtrips:map", args.tier.pick(1333333, 25000000))
+    .floor("roundtrips:sorted", args.tier.pick(2000000, 41666666))
+    .floor("roundtrips:node", args.tier.pick(666666, 13333333))
+    .floor("order_pairs_differing_in_high_byte", args.tier.pick(333333, 6666666))
+    .floor("order_pair_checks", args.tier.pick(500000, 10000000))
+    .floor("adjacent_db_compares", args.tier.pick(5000000, 100000000))
     .explain("evaluations = logical keys mapped and mapped back + explicit order pairs; distinct_nontrivial = distinct (kind, length class, byte pattern class, prefix/partition) behaviours");
     let mut report = Report::new(args, spec);
 
